@@ -113,7 +113,10 @@ rt.build = _build
 # characters and sequences that Unicode normalisation / case or width folding would rewrite: they must reach the reader as given
 SENSITIVE = ["\u212b", "\u2126", "\u212a", "\u037e", "\u0387", "\u1f71", "\u0340", "\u0344", "\uf900", "\ufa10", "\U0002f800",
              "e\u0301", "A\u030a", "o\u0308\u0304", "\u1100\u1161", "\u0915\u093c", "\U0001d15e", "\ufb01", "\uff21", "\u00b5",
-             "\u017f", "\u1e9b\u0323", "\u03d2\u0301", "\u2160", "\u00a0x", "\u2002y", "\u200d", "\ufeffz"]
+             "\u017f", "\u1e9b\u0323", "\u03d2\u0301", "\u2160", "\u00a0x", "\u2002y", "\u200d", "\ufeffz",
+             # plain ASCII that looks like an escape of some intermediate representation: must come out letter by letter
+             "&#945;-blocker", "Crohn&#39;s", "AT&T &#8805; 5", "&amp;#38;", "&#x3b1;", "%CE%B1 100%", "=CE=B1", "U+03B1 u8805*",
+             "&lt;b&gt;", "$alpha$ #1", "~ -- --- `` ''"]
 
 
 def generate(g, i):
